@@ -2,3 +2,4 @@ import Kanal.Basic
 import Kanal.Chan
 import Kanal.Spec
 import Kanal.Seq
+import Kanal.Lemmas.ChanInv
